@@ -16,7 +16,10 @@ package route
 //     HTTP client / gRPC client received;
 //   - faults come from outside: an invalid percent-escape in the dataset
 //     path (raw TCP, no Go client will send it), a fake Honeycomb /1/auth
-//     that answers 401 / 500 for the request's API key, corrupt gzip / zstd
+//     that answers 401 / 500 from its k-th call for the request on (every
+//     request has a fresh API key; routers with an EnvironmentCacheTTL of
+//     one hour and of one nanosecond, so that a cached environment has or
+//     has not expired by the next lookup), corrupt gzip / zstd
 //     bodies, malformed JSON / msgpack / protobuf, events without fields, and
 //     a stub collector that answers collect.ErrWouldBlock for the "full"
 //     events;
@@ -72,12 +75,17 @@ const (
 	c23Timeout   = 60 * time.Second
 )
 
-// API keys (none has the shape of a classic key, so each needs an environment
-// lookup); the fake Honeycomb answers by key.
-var c23Keys = map[string]string{
-	"none": "c23KeyEnvOkAAAAAAAAAAA",
-	"401":  "c23KeyEnv401BBBBBBBBBB",
-	"500":  "c23KeyEnv500CCCCCCCCCC",
+// A classic key (32 hex digits): the router never looks its environment up.
+const c23ClassicKey = "c23c23c23c23c23c23c23c23c23c23c2"
+
+// Every request with an Environments & Services key uses a key of its own, so
+// that no earlier request has left its environment in a router's cache and
+// the request's first lookup always reaches the fake auth API.
+var c23KeySeq int
+
+func c23FreshESKey() string {
+	c23KeySeq++
+	return fmt.Sprintf("c23Key%016d", c23KeySeq)
 }
 
 // --- trace identities ------------------------------------------------------
@@ -189,27 +197,51 @@ func (t *c23Transmission) EnqueueSpan(sp *types.Span)   { t.sink.hand(&sp.Data, 
 
 // --- fake Honeycomb ---------------------------------------------------------
 
-func c23NewHoneycomb() *httptest.Server {
-	return httptest.NewServer(http.HandlerFunc(func(w http.ResponseWriter, req *http.Request) {
+// c23Honeycomb is the fake auth API with a per-request fault schedule: from
+// its failAt-th call since arm() on (0 = never) it answers failCode.
+type c23Honeycomb struct {
+	srv      *httptest.Server
+	mu       sync.Mutex
+	calls    int
+	failAt   int
+	failCode int
+	strange  []string
+}
+
+func (h *c23Honeycomb) arm(failAt, failCode int) {
+	h.mu.Lock()
+	h.calls, h.failAt, h.failCode, h.strange = 0, failAt, failCode, nil
+	h.mu.Unlock()
+}
+
+func c23NewHoneycomb() *c23Honeycomb {
+	h := &c23Honeycomb{}
+	h.srv = httptest.NewServer(http.HandlerFunc(func(w http.ResponseWriter, req *http.Request) {
 		if req.URL.Path != "/1/auth" {
 			w.WriteHeader(http.StatusNotFound)
 			return
 		}
-		switch req.Header.Get("X-Honeycomb-Team") {
-		case c23Keys["none"]:
-			w.Header().Set("Content-Type", "application/json")
-			json.NewEncoder(w).Encode(AuthInfo{
-				APIKeyAccess: map[string]bool{"events": true},
-				Team:         TeamInfo{Slug: "c23team"},
-				Environment:  EnvironmentInfo{Slug: "c23env", Name: "c23env"},
-				ID:           "c23keyid",
-			})
-		case c23Keys["500"]:
-			w.WriteHeader(http.StatusInternalServerError)
-		default:
-			w.WriteHeader(http.StatusUnauthorized)
+		h.mu.Lock()
+		h.calls++
+		fail := h.failAt > 0 && h.calls >= h.failAt
+		code := h.failCode
+		if req.Header.Get("X-Honeycomb-Team") == c23ClassicKey {
+			h.strange = append(h.strange, "environment of a classic key looked up")
 		}
+		h.mu.Unlock()
+		if fail {
+			w.WriteHeader(code)
+			return
+		}
+		w.Header().Set("Content-Type", "application/json")
+		json.NewEncoder(w).Encode(AuthInfo{
+			APIKeyAccess: map[string]bool{"events": true},
+			Team:         TeamInfo{Slug: "c23team"},
+			Environment:  EnvironmentInfo{Slug: "c23env", Name: "c23env"},
+			ID:           "c23keyid",
+		})
 	}))
+	return h
 }
 
 // --- the recording front of the mux ------------------------------------------
@@ -280,14 +312,19 @@ func (f *c23Front) ServeHTTP(w http.ResponseWriter, req *http.Request) {
 // --- the environment: two routers and their front doors ---------------------
 
 type c23Env struct {
-	sink     *c23Sink
-	routers  []*Router
-	fronts   map[string]*c23Front // "incoming", "peer"
-	servers  map[string]*httptest.Server
-	grpcConn *grpc.ClientConn
+	sink      *c23Sink
+	honey     *c23Honeycomb
+	routers   []*Router
+	fronts    map[string]*c23Front // "incoming/hour", "peer/hour", "incoming/tiny", "peer/tiny"
+	servers   map[string]*httptest.Server
+	grpcConns map[string]*grpc.ClientConn // by ttl
 }
 
-func c23NewRouter(rt types.RouterType, honeyURL string, sink *c23Sink) (*Router, error) {
+// the environment cache TTLs behind the specification's names: with "tiny"
+// an entry has expired by the time it is looked at again
+var c23TTLs = map[string]time.Duration{"hour": time.Hour, "tiny": time.Nanosecond}
+
+func c23NewRouter(rt types.RouterType, honeyURL string, sink *c23Sink, ttl time.Duration) (*Router, error) {
 	kinds, peerIDs := c23KindTable()
 	cfg := &config.MockConfig{
 		GetHoneycombAPIVal:   honeyURL,
@@ -299,7 +336,7 @@ func c23NewRouter(rt types.RouterType, honeyURL string, sink *c23Sink) (*Router,
 			MaxSendMsgSize: 15_000_000,
 			MaxRecvMsgSize: 15_000_000,
 		},
-		EnvironmentCacheTTL: time.Hour,
+		EnvironmentCacheTTL: ttl,
 		TraceIdFieldNames:   []string{"trace.trace_id", "traceId"},
 		ParentIdFieldNames:  []string{"trace.parent_id", "parentId"},
 		GetSamplerTypeVal:   &config.DeterministicSamplerConfig{SampleRate: 1},
@@ -333,32 +370,34 @@ func c23NewRouter(rt types.RouterType, honeyURL string, sink *c23Sink) (*Router,
 	return r, nil
 }
 
-func c23NewEnv(honeyURL string) (*c23Env, error) {
-	e := &c23Env{sink: &c23Sink{}, fronts: map[string]*c23Front{}, servers: map[string]*httptest.Server{}}
-	for name, rt := range map[string]types.RouterType{"incoming": types.RouterTypeIncoming, "peer": types.RouterTypePeer} {
-		r, err := c23NewRouter(rt, honeyURL, e.sink)
-		if err != nil {
-			return nil, err
-		}
-		e.routers = append(e.routers, r)
-		f := &c23Front{inner: r.server.Handler}
-		e.fronts[name] = f
-		srv := httptest.NewUnstartedServer(f)
-		srv.Config.ErrorLog = log.New(io.Discard, "", 0) // "superfluous WriteHeader" is counted, not printed
-		srv.Start()
-		e.servers[name] = srv
-		if name == "incoming" {
-			if r.grpcServer == nil {
-				return nil, fmt.Errorf("Router.LnS did not build its gRPC server")
-			}
-			lis, err := net.Listen("tcp", "127.0.0.1:0")
+func c23NewEnv(honey *c23Honeycomb) (*c23Env, error) {
+	e := &c23Env{sink: &c23Sink{}, honey: honey, fronts: map[string]*c23Front{}, servers: map[string]*httptest.Server{}, grpcConns: map[string]*grpc.ClientConn{}}
+	for ttlName, ttl := range c23TTLs {
+		for name, rt := range map[string]types.RouterType{"incoming": types.RouterTypeIncoming, "peer": types.RouterTypePeer} {
+			r, err := c23NewRouter(rt, honey.srv.URL, e.sink, ttl)
 			if err != nil {
 				return nil, err
 			}
-			go r.grpcServer.Serve(lis)
-			e.grpcConn, err = grpc.NewClient(lis.Addr().String(), grpc.WithTransportCredentials(insecure.NewCredentials()))
-			if err != nil {
-				return nil, err
+			e.routers = append(e.routers, r)
+			f := &c23Front{inner: r.server.Handler}
+			e.fronts[name+"/"+ttlName] = f
+			srv := httptest.NewUnstartedServer(f)
+			srv.Config.ErrorLog = log.New(io.Discard, "", 0) // "superfluous WriteHeader" is counted, not printed
+			srv.Start()
+			e.servers[name+"/"+ttlName] = srv
+			if name == "incoming" {
+				if r.grpcServer == nil {
+					return nil, fmt.Errorf("Router.LnS did not build its gRPC server")
+				}
+				lis, err := net.Listen("tcp", "127.0.0.1:0")
+				if err != nil {
+					return nil, err
+				}
+				go r.grpcServer.Serve(lis)
+				e.grpcConns[ttlName], err = grpc.NewClient(lis.Addr().String(), grpc.WithTransportCredentials(insecure.NewCredentials()))
+				if err != nil {
+					return nil, err
+				}
 			}
 		}
 	}
@@ -366,7 +405,9 @@ func c23NewEnv(honeyURL string) (*c23Env, error) {
 }
 
 func (e *c23Env) close() {
-	e.grpcConn.Close()
+	for _, c := range e.grpcConns {
+		c.Close()
+	}
 	for _, s := range e.servers {
 		s.Close()
 	}
@@ -375,11 +416,69 @@ func (e *c23Env) close() {
 	}
 }
 
+// arm sets the auth API's fault schedule for the next request and returns the
+// API key to send.
+func (e *c23Env) arm(q *c23Req) (string, error) {
+	code := 0
+	switch q.Env {
+	case "none":
+		if q.EnvAt != 0 {
+			return "", fmt.Errorf("schedule without a flavour: %+v", q)
+		}
+	case "401":
+		code = http.StatusUnauthorized
+	case "500":
+		code = http.StatusInternalServerError
+	default:
+		return "", fmt.Errorf("env fault %q", q.Env)
+	}
+	if _, ok := c23TTLs[q.TTL]; !ok {
+		return "", fmt.Errorf("ttl %q", q.TTL)
+	}
+	e.honey.arm(q.EnvAt, code)
+	switch q.Key {
+	case "es":
+		return c23FreshESKey(), nil
+	case "classic":
+		return c23ClassicKey, nil
+	}
+	return "", fmt.Errorf("key class %q", q.Key)
+}
+
 // --- request bodies -----------------------------------------------------------
 
 type c23Req struct {
-	Ep, Enc, Dataset, Env, Body, Parse string
-	Shape                              []string
+	Ep, Enc, Dataset, Key, TTL, Env, Body, Parse string
+	EnvAt                                        int
+	Shape                                        []string
+	Split                                        []int
+}
+
+// groups cuts the events into the resources of an OTLP request; every group
+// is a list of (kind, global event number)
+type c23Ev struct {
+	kind string
+	i    int
+}
+
+func (q *c23Req) groups() ([][]c23Ev, error) {
+	out := [][]c23Ev{}
+	n := 0
+	for _, size := range q.Split {
+		g := []c23Ev{}
+		for k := 0; k < size; k++ {
+			if n >= len(q.Shape) {
+				return nil, fmt.Errorf("split %v does not fit shape %v", q.Split, q.Shape)
+			}
+			g = append(g, c23Ev{q.Shape[n], n + 1})
+			n++
+		}
+		out = append(out, g)
+	}
+	if n != len(q.Shape) || len(out) == 0 {
+		return nil, fmt.Errorf("split %v does not fit shape %v", q.Split, q.Shape)
+	}
+	return out, nil
 }
 
 func c23EventData(kind string, i int) map[string]any {
@@ -399,44 +498,47 @@ func c23Str(k, v string) *common.KeyValue {
 	return &common.KeyValue{Key: k, Value: &common.AnyValue{Value: &common.AnyValue_StringValue{StringValue: v}}}
 }
 
-func c23Resource() *resource.Resource {
-	return &resource.Resource{Attributes: []*common.KeyValue{c23Str("service.name", "c23svc")}}
+// every resource is a service of its own (husky: one batch, one dataset per resource)
+func c23Resource(g int) *resource.Resource {
+	return &resource.Resource{Attributes: []*common.KeyValue{c23Str("service.name", fmt.Sprintf("c23svc%d", g))}}
 }
 
-func c23TraceReq(shape []string) *collectortrace.ExportTraceServiceRequest {
-	spans := []*trace.Span{}
-	for n, kind := range shape {
-		i := n + 1
-		spans = append(spans, &trace.Span{
-			TraceId: c23OTLPTraceIDBytes(kind, i), SpanId: []byte{0xc2, 3, 0, 0, 0, 0, 0, byte(i)}, ParentSpanId: []byte{0xc2, 3, 9, 9, 9, 9, 9, 9},
-			Name: "c23 " + kind, StartTimeUnixNano: 1700000000000000000, EndTimeUnixNano: 1700000001000000000,
-			Attributes: []*common.KeyValue{c23Str("eid", fmt.Sprintf("e%d", i))},
-		})
+// a resource is present even without spans, so that the body is never zero bytes long
+func c23TraceReq(groups [][]c23Ev) *collectortrace.ExportTraceServiceRequest {
+	out := &collectortrace.ExportTraceServiceRequest{}
+	for g, evs := range groups {
+		spans := []*trace.Span{}
+		for _, ev := range evs {
+			spans = append(spans, &trace.Span{
+				TraceId: c23OTLPTraceIDBytes(ev.kind, ev.i), SpanId: []byte{0xc2, 3, 0, 0, 0, 0, 0, byte(ev.i)}, ParentSpanId: []byte{0xc2, 3, 9, 9, 9, 9, 9, 9},
+				Name: "c23 " + ev.kind, StartTimeUnixNano: 1700000000000000000, EndTimeUnixNano: 1700000001000000000,
+				Attributes: []*common.KeyValue{c23Str("eid", fmt.Sprintf("e%d", ev.i))},
+			})
+		}
+		out.ResourceSpans = append(out.ResourceSpans, &trace.ResourceSpans{Resource: c23Resource(g + 1), ScopeSpans: []*trace.ScopeSpans{{Spans: spans}}})
 	}
-	// the resource is present even without spans, so that the body is never zero bytes long
-	return &collectortrace.ExportTraceServiceRequest{ResourceSpans: []*trace.ResourceSpans{{
-		Resource: c23Resource(), ScopeSpans: []*trace.ScopeSpans{{Spans: spans}},
-	}}}
+	return out
 }
 
-func c23LogsReq(shape []string) *collectorlogs.ExportLogsServiceRequest {
-	recs := []*logs.LogRecord{}
-	for n, kind := range shape {
-		i := n + 1
-		rec := &logs.LogRecord{
-			TimeUnixNano: 1700000000000000000,
-			Body:         &common.AnyValue{Value: &common.AnyValue_StringValue{StringValue: "c23 " + kind}},
-			Attributes:   []*common.KeyValue{c23Str("eid", fmt.Sprintf("e%d", i))},
+func c23LogsReq(groups [][]c23Ev) *collectorlogs.ExportLogsServiceRequest {
+	out := &collectorlogs.ExportLogsServiceRequest{}
+	for g, evs := range groups {
+		recs := []*logs.LogRecord{}
+		for _, ev := range evs {
+			rec := &logs.LogRecord{
+				TimeUnixNano: 1700000000000000000,
+				Body:         &common.AnyValue{Value: &common.AnyValue_StringValue{StringValue: "c23 " + ev.kind}},
+				Attributes:   []*common.KeyValue{c23Str("eid", fmt.Sprintf("e%d", ev.i))},
+			}
+			if ev.kind != "plain" {
+				rec.TraceId = c23OTLPTraceIDBytes(ev.kind, ev.i)
+				rec.SpanId = []byte{0xc2, 3, 0, 0, 0, 0, 0, byte(ev.i)}
+			}
+			recs = append(recs, rec)
 		}
-		if kind != "plain" {
-			rec.TraceId = c23OTLPTraceIDBytes(kind, i)
-			rec.SpanId = []byte{0xc2, 3, 0, 0, 0, 0, 0, byte(i)}
-		}
-		recs = append(recs, rec)
+		out.ResourceLogs = append(out.ResourceLogs, &logs.ResourceLogs{Resource: c23Resource(g + 1), ScopeLogs: []*logs.ScopeLogs{{LogRecords: recs}}})
 	}
-	return &collectorlogs.ExportLogsServiceRequest{ResourceLogs: []*logs.ResourceLogs{{
-		Resource: c23Resource(), ScopeLogs: []*logs.ScopeLogs{{LogRecords: recs}},
-	}}}
+	return out
 }
 
 func c23Marshal(enc string, v any) ([]byte, string, error) {
@@ -473,9 +575,17 @@ func (q *c23Req) document() (any, error) {
 		}
 		return evs, nil
 	case "otlp-http-traces", "otlp-grpc-traces":
-		return c23TraceReq(q.Shape), nil
+		groups, err := q.groups()
+		if err != nil {
+			return nil, err
+		}
+		return c23TraceReq(groups), nil
 	case "otlp-http-logs", "otlp-grpc-logs":
-		return c23LogsReq(q.Shape), nil
+		groups, err := q.groups()
+		if err != nil {
+			return nil, err
+		}
+		return c23LogsReq(groups), nil
 	}
 	return nil, fmt.Errorf("unknown endpoint %q", q.Ep)
 }
@@ -581,16 +691,16 @@ func (e *c23Env) sendHTTP(q *c23Req) (*c23Obs, error) {
 	} else if q.Dataset != "none" {
 		return nil, fmt.Errorf("dataset fault on %s", q.Ep)
 	}
-	key, ok := c23Keys[q.Env]
-	if !ok {
-		return nil, fmt.Errorf("env fault %q", q.Env)
-	}
 	body, ctype, cenc, err := q.payload()
 	if err != nil {
 		return nil, err
 	}
-	srv := e.servers[which]
-	rec := e.fronts[which].arm()
+	key, err := e.arm(q)
+	if err != nil {
+		return nil, err
+	}
+	srv := e.servers[which+"/"+q.TTL]
+	rec := e.fronts[which+"/"+q.TTL].arm()
 
 	var code int
 	var rctype string
@@ -724,11 +834,11 @@ func (e *c23Env) sendGRPC(q *c23Req) (*c23Obs, error) {
 	if q.Dataset != "none" || q.Body != "none" {
 		return nil, fmt.Errorf("fault not applicable to gRPC: %+v", q)
 	}
-	key, ok := c23Keys[q.Env]
-	if !ok {
-		return nil, fmt.Errorf("env fault %q", q.Env)
-	}
 	body, _, _, err := q.payload()
+	if err != nil {
+		return nil, err
+	}
+	key, err := e.arm(q)
 	if err != nil {
 		return nil, err
 	}
@@ -740,7 +850,7 @@ func (e *c23Env) sendGRPC(q *c23Req) (*c23Obs, error) {
 	ctx, cancel := context.WithTimeout(context.Background(), c23Timeout)
 	defer cancel()
 	var out []byte
-	err = e.grpcConn.Invoke(metadata.NewOutgoingContext(ctx, md), method, body, &out, grpc.ForceCodec(c23RawCodec{}))
+	err = e.grpcConns[q.TTL].Invoke(metadata.NewOutgoingContext(ctx, md), method, body, &out, grpc.ForceCodec(c23RawCodec{}))
 	if c := status.Code(err); c == codes.DeadlineExceeded || c == codes.Unavailable || c == codes.Canceled {
 		return nil, fmt.Errorf("gRPC transport: %w", err)
 	}
@@ -770,10 +880,16 @@ func (h *c23Harness) Reset(init map[string]any) error {
 		return fmt.Errorf("initial state without req: %v", init)
 	}
 	h.req = c23Req{Ep: verifkit.Str(r, "ep"), Enc: verifkit.Str(r, "enc"), Dataset: verifkit.Str(r, "dataset"),
-		Env: verifkit.Str(r, "env"), Body: verifkit.Str(r, "body"), Parse: verifkit.Str(r, "parse"), Shape: []string{}}
+		Key: verifkit.Str(r, "key"), TTL: verifkit.Str(r, "ttl"), Env: verifkit.Str(r, "env"), EnvAt: verifkit.Int(r, "envAt"),
+		Body: verifkit.Str(r, "body"), Parse: verifkit.Str(r, "parse"), Shape: []string{}, Split: []int{}}
 	sh, _ := r["shape"].([]any)
 	for _, k := range sh {
 		h.req.Shape = append(h.req.Shape, k.(string))
+	}
+	sp, _ := r["split"].([]any)
+	for _, n := range sp {
+		f, _ := n.(float64)
+		h.req.Split = append(h.req.Split, int(f))
 	}
 	if len(h.req.Shape) > c23MaxEvents {
 		return fmt.Errorf("request with %d events, the harness knows %d trace identities", len(h.req.Shape), c23MaxEvents)
@@ -803,12 +919,15 @@ func (h *c23Harness) Apply(a map[string]any) error {
 	h.refused = append([]int(nil), s.refused...)
 	h.strange = append([]string(nil), s.strange...)
 	s.mu.Unlock()
+	h.env.honey.mu.Lock()
+	h.strange = append(h.strange, h.env.honey.strange...)
+	h.env.honey.mu.Unlock()
 	return nil
 }
 
 func (h *c23Harness) Project() (any, error) {
-	out := map[string]any{"ep": h.req.Ep, "enc": h.req.Enc, "dataset": h.req.Dataset, "env": h.req.Env,
-		"body": h.req.Body, "parse": h.req.Parse, "shape": h.req.Shape,
+	out := map[string]any{"ep": h.req.Ep, "enc": h.req.Enc, "dataset": h.req.Dataset, "key": h.req.Key, "ttl": h.req.TTL,
+		"env": h.req.Env, "envAt": h.req.EnvAt, "body": h.req.Body, "parse": h.req.Parse, "shape": h.req.Shape, "split": h.req.Split,
 		"status": "none", "writes": 0, "perEvent": []int{}, "effectsSet": []c23Effect{}, "refusedSet": []int{}}
 	if h.obs == nil {
 		return out, nil
@@ -833,8 +952,8 @@ func (h *c23Harness) Project() (any, error) {
 
 func TestVerifC23Responses(t *testing.T) {
 	honey := c23NewHoneycomb()
-	defer honey.Close()
-	env, err := c23NewEnv(honey.URL)
+	defer honey.srv.Close()
+	env, err := c23NewEnv(honey)
 	if err != nil {
 		t.Fatal(err)
 	}
